@@ -243,13 +243,18 @@ fn run(ctx: &Ctx) -> Part {
                 alpha.push(Op::FillSolid { r: Rect { x: -1, y: 0, w: 3, h: 9 }, c: 0x0222 });
                 alpha.push(Op::DrawIter(Pixels::List(vec![(0, 0, 0x0331), (1, 0, 0x0332), (9, 9, 0x0333), (0, 1, 0x0334)])));
                 alpha.push(Op::FillContiguous { r: Rect { x: 0, y: -1, w: 2, h: 3 }, colors: Colors::Coded { base: 0x0400, len: None } });
+                let fourth: Vec<Option<Op>> = if ctx.quick() { vec![None] } else { std::iter::once(None).chain(alpha.iter().cloned().map(Some)).collect() };
                 for a in &alpha {
                     for b in &alpha {
                         for c in &alpha {
-                            let hist = [a.clone(), b.clone(), c.clone()];
+                          for d4 in &fourth {
+                            let mut hist = vec![a.clone(), b.clone(), c.clone()];
+                            if let Some(d) = d4 {
+                                hist.push(d.clone());
+                            }
                             // set_pixel(0,0) is in range under every orientation of these windows
                             acc.evaluations += 1;
-                            acc.transitions += 3;
+                            acc.transitions += hist.len() as u64;
                             acc.traces += 1;
                             match check_history(cfg, &hist, &Checks::ALL) {
                                 Ok(run) => {
@@ -258,6 +263,7 @@ fn run(ctx: &Ctx) -> Part {
                                 Err((f, _)) => acc.violation(violation(ctx, cfg, &hist, "all", &f)),
                             }
                             acc.count("mixed_programs", 1);
+                          }
                         }
                     }
                 }
